@@ -394,6 +394,9 @@ func newMaskGen(md protoreflect.MessageDescriptor) *maskGen {
 
 // readMask returns 1-3 valid paths.
 func (g *maskGen) readMask(rng *vk.Rand) []string {
+	if rng.Chance(1, 10) {
+		return []string{} // a mask that is present and names nothing: the projection is the empty message
+	}
 	n := rng.Range(1, 3)
 	seen := map[string]bool{}
 	var out []string
